@@ -373,7 +373,7 @@ End QuaRateProofs.
 
 (* ================================================================== osu!mania *)
 From Coq Require String.
-From RV Require Base.Text Formats.Osu Formats.OsuSpec Proofs.OsuProofs.
+From RV Require Base.Text Formats.Osu Formats.OsuSpec Proofs.OsuProofs Proofs.OsuWrite Proofs.OsuWhole.
 Module OsuRateProofs.
 Import String.
 Import List ListNotations.
@@ -588,8 +588,8 @@ Theorem osu_example_survives :
   | None => False
   end.
 Proof. vm_compute. repeat split; reflexivity. Qed.
-(* the same chart with a preview point at 12345 ms: the writer prints int(6172.5) = 6172, and C01's write oracle (whose
-   written_chart does not truncate PreviewTime) rejects the text for that reason alone; the list part holds *)
+(* the same chart with a preview point at 12345 ms: the writer prints int(6172.5) = 6172 and C01's write oracle (whose
+   written_chart truncates PreviewTime like every written time) accepts the text *)
 Definition wit_chart_pv : chart :=
   mkChart (set_nth (c_meta wit_chart) IX_PREVIEW (MNum 12345)) (c_bg wit_chart) (c_samples wit_chart) (c_bpms wit_chart)
           (c_svs wit_chart) (c_hits wit_chart) (c_holds wit_chart).
@@ -597,7 +597,7 @@ Theorem osu_example_fractional_preview :
   match osu_write (osu_chart_rate 2 wit_chart_pv) (Text.t "Re:Zero"%string) [] with
   | Some wl =>
       let written := file_lines (OsuProofs.render wl) in
-      write_specb 0 (osu_chart_rate 2 wit_chart_pv) (Text.t "Re:Zero"%string) [] written = false
+      write_specb 0 (osu_chart_rate 2 wit_chart_pv) (Text.t "Re:Zero"%string) [] written = true
       /\ match osu_denote written with
          | Some d => lists_written d (osu_chart_rate 2 wit_chart_pv) = true
                      /\ nth IX_PREVIEW (d_meta d) None = Some (MNum 6172)
@@ -605,6 +605,40 @@ Theorem osu_example_fractional_preview :
   | None => False
   end.
 Proof. vm_compute. repeat split; reflexivity. Qed.
+
+(* ---- composition with C01's whole-file writer theorem (Proofs/OsuWhole.v osu_write_denotes; the float / int printers are
+   oracle parameters: any printer whose output parses back to the printed value on the numbers it is asked to print) ---- *)
+Section Whole.
+  Variable show_num show_inum : Q -> Text.text.
+  Variable printable iprintable : Q -> bool.
+  Hypothesis show_num_reads : forall q, printable q = true -> Text.parse_dec (show_num q) = Some (Qred q).
+  Hypothesis show_inum_reads : forall q, iprintable q = true -> Text.parse_int (show_inum q) = Some (Qfloor q).
+
+  Theorem osu_rate_survives_write r c ut ua : ~ r == 0 ->
+    OsuWrite.wdom printable iprintable (osu_chart_rate r c) ut ua = true ->
+    exists text d, OsuWrite.written show_num show_inum (osu_chart_rate r c) ut ua = Some text /\
+                   osu_denote text = Some d /\ wf_osu_text text = true /\ all_present d = true /\ survives r c d.
+  Proof.
+    intros Hr D.
+    destruct (OsuWhole.osu_write_denotes show_num show_inum printable iprintable show_num_reads show_inum_reads _ ut ua D)
+      as (text & d & W & E & A & _ & S).
+    destruct (osu_rate_survives_write_partial r c ut ua text Hr S) as (d' & E' & Wf & Sv).
+    rewrite E in E'. inversion E'; subst d'. exists text, d. auto.
+  Qed.
+End Whole.
+(* the hypothesis-free instance: six-decimal fixed point for floats, str(int) for ints *)
+Theorem osu_rate_survives_write_dec6 r c ut ua : ~ r == 0 -> OsuWhole.wdom6 (osu_chart_rate r c) ut ua = true ->
+  exists text d, OsuWhole.written6 (osu_chart_rate r c) ut ua = Some text /\
+                 osu_denote text = Some d /\ wf_osu_text text = true /\ all_present d = true /\ survives r c d.
+Proof.
+  exact (osu_rate_survives_write OsuWhole.show_dec6 OsuWhole.show_intq OsuWhole.dec6_printable OsuWhole.any_q
+           OsuWhole.show_dec6_reads OsuWhole.show_intq_reads r c ut ua).
+Qed.
+(* non-vacuity: both example charts, rated by 2, are in the domain of the instance *)
+Theorem osu_example_in_domain :
+  OsuWhole.wdom6 (osu_chart_rate 2 wit_chart) (Text.t "Re:Zero"%string) [] = true /\
+  OsuWhole.wdom6 (osu_chart_rate 2 wit_chart_pv) (Text.t "Re:Zero"%string) [] = true.
+Proof. vm_compute. split; reflexivity. Qed.
 End OsuRateProofs.
 
 (* ------------------------------------------------------------------ more list facts *)
